@@ -117,6 +117,36 @@ def run():
             if after:
                 r.violation("forward-isolation:%s:%s" % (kind.name, norm(after[0])), "%s: after forward() and editing the copy, the received entity no longer reproduces its stanza: %s" % (
                     kind.name, "; ".join(after[:2])), {"kind": kind.name, "seed": seed})
+    # ---- entities built from different stanzas are independent of each other (no state shared through class attributes or default
+    # arguments): building a second entity changes neither what the first one serialises to nor what a later one built from the first
+    # stanza serialises to
+    iso = [(k.name, k.entity_class, (lambda rng, k=k: k.make_node(rng))) for k in cat.KINDS if k.direction == "in" and k.entity_class]
+    iso += list(extra_kinds.ISOLATION_ONLY)
+    for name, cls_path, builder in iso:
+        for s in range(3 if thorough else 1):
+            seed = base + 700 + s
+            r.case(("entity-isolation", name, s))
+            try:
+                cls = cat.load_class(cls_path)
+                n1, n2 = builder(random.Random(seed)), builder(random.Random(seed + 1))
+                e1 = cls.fromProtocolTreeNode(n1)
+                if e1 is None:
+                    continue
+                ser1 = e1.toProtocolTreeNode()
+                e2 = cls.fromProtocolTreeNode(n2)
+                if e2 is not None:
+                    e2.toProtocolTreeNode()
+                d1, _ = cat.node_diff(e1.toProtocolTreeNode(), ser1)
+                d2, _ = cat.node_diff(cls.fromProtocolTreeNode(n1).toProtocolTreeNode(), ser1)
+                d = d1 or d2
+            except Exception as ex:
+                continue          # conversion failures are judged by the round-trip pass above
+            if d:
+                r.violation("entity-isolation:%s:%s" % (name, norm(d[0])), "%s: after another stanza of the kind was converted, an entity of the first stanza serialises differently: %s" % (
+                    name, "; ".join(d[:2])), {"kind": name, "seed": seed})
+    # ---- encrypted envelopes (built by the send layer) with ciphertext lengths around the codec's length-class boundaries
+    for nm, node in extra_kinds.enc_message_nodes(random.Random(base + 900), (1, 255, 256, 257, 4096, 65535, 65536) + ((1 << 20,) if thorough else ())):
+        nodes_for_codec.append((nm, None, base + 900, node))
     r.notes["entity_classes"] = len(classes)
     r.notes["kinds"] = len(cat.KINDS)
     r.notes["skipped_kinds"] = [x[0] for x in cat.SKIPPED]
